@@ -21,7 +21,7 @@ def parse_registration_credential_json(json_val: Union[str, dict]) -> Registrati
     if isinstance(json_val, str):
         try:
             json_val = json.loads(json_val)
-        except JSONDecodeError:
+        except ValueError:
             raise InvalidJSONStructure("Unable to decode credential as JSON")
 
     if not isinstance(json_val, dict):
